@@ -184,7 +184,10 @@ func ShapesFor(f Field, c *Counter, gob bool) []Shaped {
 	case KMime:
 		v := reflect.New(ft).Elem()
 		v.SetString("text/markdown")
-		return []Shaped{{"str", v}}
+		// a media type with a quoted parameter value: the quotes are part of it
+		q := reflect.New(ft).Elem()
+		q.SetString(`text/plain; charset="utf-8"`)
+		return []Shaped{{"str", v}, {"quoted-param", q}}
 	case KLangRef:
 		v := reflect.New(ft).Elem()
 		v.SetString("en-GB")
@@ -238,6 +241,7 @@ func ShapesFor(f Field, c *Counter, gob bool) []Shaped {
 			{"source-full", reflect.ValueOf(ap.Source{MediaType: "text/markdown", Content: ap.DefaultNaturalLanguageValue("txt-*source*")})},
 			{"source-content", reflect.ValueOf(ap.Source{Content: ap.DefaultNaturalLanguageValue("txt-source only")})},
 			{"source-mime", reflect.ValueOf(ap.Source{MediaType: "text/markdown"})},
+			{"source-mime-quoted-param", reflect.ValueOf(ap.Source{MediaType: `text/plain; charset="utf-8"`, Content: ap.DefaultNaturalLanguageValue("txt-src")})},
 			{"source-nlN", reflect.ValueOf(ap.Source{MediaType: "text/markdown", Content: ap.NaturalLanguageValues{{Ref: "en", Value: ap.Content("txt-a")}, {Ref: "fr", Value: ap.Content("txt-b")}}})},
 		}
 	case KPublicKey:
